@@ -144,7 +144,7 @@ def replay(path):
         replaylib.need(rp, path, 'impl', 'pre', 'acts', 'variants')
         cbuild.preload()
         if rp['impl'] == 'skmem':
-            t = pagedrv.skmem_trace(rp['pre'], rp['acts'])
+            t = pagedrv.skmem_trace(rp['pre'], rp['acts'], bool(rp.get('copies')))
         elif rp['impl'] in pagedrv.IMPLS:
             t = pagedrv.run_trace(rp['impl'], rp['pre'], rp['acts'], rp['variants'])
         else:
